@@ -381,6 +381,17 @@ def run_case(case):
         big = np.vstack([W] * reps)[:2000]
         agree("batch-2000", lambda: call(big.copy()), np.concatenate([got] * reps)[:2000], np.concatenate([clear] * reps)[:2000])
     agree("python-list", lambda: call(W[pick[:5]].tolist()), got[pick[:5]])
+    # input forms: whole-number points as integer arrays / nested lists of Python ints are answered like the same floats
+    lo, hi = np.floor(W.min(0)).astype(np.int64), np.ceil(W.max(0)).astype(np.int64)
+    if np.all(hi - lo <= 12) and np.all(np.abs(W) < 1e6):
+        Wi = np.array([[x, y, z] for x in range(lo[0], hi[0] + 1) for y in range(lo[1], hi[1] + 1) for z in range(lo[2], hi[2] + 1)], dtype=np.int64)
+        try:
+            reff = call(Wi.astype(float))
+            agree("int64-points", lambda: call(Wi.copy()), reff)
+            agree("nested-list-of-int", lambda: call(Wi.tolist()), reff)
+            agree("single-int-point", lambda: call(Wi[len(Wi) // 2].copy()), reff[len(Wi) // 2 : len(Wi) // 2 + 1])
+        except Exception as ex:
+            rep.violation("batch", label, "is_inside", "raised:" + type(ex).__name__ + ":int-points", case, "whole-number points raised %r" % (ex,))
     if label == "ConvexSpheropolyhedron":
         # six point classes: core, face slab, edge wedge, vertex cap, near outside, far outside
         classes = _sphero_classes(case, b, W, got, want, clear)
